@@ -530,6 +530,11 @@ class Run:
                 with open(path, "w", encoding="utf8") as f:
                     json.dump({"property": self.pid, "key": key, "what": what, "replay": replay}, f, indent=1)
                 lines.append("VIOLATION property=%s replay=%s" % (self.pid, path))
+        if new:
+            os.makedirs(vdir, exist_ok=True)
+            with open(os.path.join(vdir, "index.ndjson"), "w", encoding="utf8") as f:
+                for key, what, replay in new:
+                    f.write(json.dumps({"key": key, "what": what}) + "\n")
         seen_lines = lines[:50]
         for ln in seen_lines:
             print(ln)
